@@ -26,7 +26,8 @@ HOW = {
     "C15-m4": "after giving some lines a branching fraction of exactly zero",
     "C01-m6": "after adding look-ahead assertions to the symbolic matcher (before, the context was reported as unsupported = inconclusive; "
               "C06's accept harness caught it at first try)",
-    "C02-m5": "first by A[edits] (CRLF + wrapped parameters); by the MODEL lemma after look-ahead support and after adding the model class to C02's sweep",
+    "C02-m5": "after look-ahead support in the matcher and after adding the model class to C02's lemma sweep; A[edits] now also breaks the line "
+              "right after the model name",
     "C07-m5": "after adding the terminal-language obligations (B2) and the WORD lemma to C07 (they were only in C01)",
 }
 rows = []
@@ -50,7 +51,7 @@ out = ["Seeds: `-mN` written by independent sub-agents that saw only the propert
        "`tools/verify_seed.sh`: demo passes on the clean tree, fails with the patch, 282 tests still pass); `-aN` written by me from the changes",
        "the property texts report as surviving the suite; `-prefixFn` the reverse of my own fix commits. Every row was produced by",
        "`tools/seed_matrix.sh` (quick tier, scratch copy of /repo). *how* says whether the check caught the change as it stood when the change",
-       "arrived (\"first\") or what had to be added after a miss - 58 of the 84 sub-agent changes were caught at first try; the misses are the reason for the session-history dimension, the boundary values (zero, None, empty) and the symbolic-value harnesses.", "",
+       "arrived (\"first\") or what had to be added after a miss - 57 of the 84 sub-agent changes were caught at first try; the misses are the reason for the session-history dimension, the boundary values (zero, None, empty) and the symbolic-value harnesses.", "",
        "| seed | origin | change | caught by (first obligation that fails) | how |", "|---|---|---|---|---|"]
 for r in rows:
     out.append("| " + " | ".join(r) + " |")
